@@ -412,4 +412,49 @@ def step (s : St) : Ev → St × List Obs
 (0 / None fall back to the clock, which the harness pins). -/
 def initOk (sendSeq : Nat) : Bool := 0 < sendSeq && sendSeq ≤ sequenceNumberMax
 
+/-! ## `CEMIHandler.send_telegram`: the interface's verdict on a handed-over frame
+
+`send_telegram` first lets `outgoing_cemi` secure the frame (drawing a sequence
+number), then hands it to `knxip_interface.send_cemi`.  Whatever happens there –
+success, `CommunicationError` (raised by a UDP tunnel only *after* it transmitted
+the request twice without an ACK), `ConversionError`, a missing L_Data.con – the
+frame may already be on the bus, so the Data Secure state must not depend on it. -/
+
+/-- What `send_cemi` / the confirmation wait did with a handed-over frame. -/
+inductive IfRes where
+  | ok        -- sent and confirmed
+  | comm      -- `CommunicationError` raised by `send_cemi`
+  | conv      -- `ConversionError` raised by `send_cemi`
+  | noconf    -- no L_Data.con within the timeout: `ConfirmationError`
+  deriving DecidableEq, Repr
+
+inductive TEv where
+  | base (e : Ev)                                   -- received frame / direct `outgoing_cemi`
+  | transmit (group keyed : Bool) (res : IfRes)     -- `send_telegram` with the interface's verdict
+  deriving DecidableEq, Repr
+
+inductive TObs where
+  | base (o : Obs)
+  | outcome (res : IfRes)     -- how `send_telegram` ended for the frame just handed over
+  deriving DecidableEq, Repr
+
+/-- The `DataSecure`-level event behind a `send_telegram` call. -/
+def TEv.proj : TEv → Ev
+  | .base e => e
+  | .transmit g k _ => .send g k
+
+/-- `send_telegram` layer: the verdict is observed, the state ignores it.  When
+`outgoing_cemi` itself raises (numbers exhausted) nothing is handed over. -/
+def tstep (s : St) : TEv → St × List TObs
+  | .base e => ((step s e).1, (step s e).2.map .base)
+  | .transmit g k res =>
+    let r := step s (.send g k)
+    (r.1, r.2.map .base ++ (if r.2 = [.sendError] then [] else [.outcome res]))
+
+/-- Forget the verdicts. -/
+def TObs.erase : List TObs → List Obs
+  | [] => []
+  | .base o :: t => o :: TObs.erase t
+  | .outcome _ :: t => TObs.erase t
+
 end XknxVerif.DataSecure
